@@ -19,7 +19,7 @@
 //!     itersyms                            call `iter_symbols()` on the map at this point of the lookup sequence
 //!     stored <kind> <hex>                 one more map over the same text that is offered these bytes as `.symindex`
 //!                                         kind: empty | trunc | magic | counts | foreign | foreign-module |
-//!                                         foreign-prefix | garbage | padded
+//!                                         foreign-prefix | two-module | two-module-sameid | garbage | padded
 //!     wholesym fresh                      the text as `<dir>/x/<ID>/x.sym` under a `wholesym::SymbolManager` with
 //!     wholesym stale <kind> <hex>         `breakpad_symbol_dir` + `breakpad_symindex_cache_dir`; stale: the `.symindex`
 //!                                         file exists already with these bytes
@@ -1001,6 +1001,91 @@ fn bad_indexes(rng: &mut Rng, valid: Option<&[u8]>, foreign: Option<&[u8]>) -> V
     v
 }
 
+/// `valid` with its module-info block replaced by `mi` (tables unchanged, offsets shifted, padding to 4).
+fn with_module_info(valid: &[u8], mi: &[u8]) -> Vec<u8> {
+    let old_file_off = get32(valid, 24) as usize;
+    let pad = (4 - mi.len() % 4) % 4;
+    let new_file_off = 48 + mi.len() + pad;
+    let mut out = valid[..48].to_vec();
+    put32(&mut out, 12, 48);
+    put32(&mut out, 16, mi.len() as u32);
+    for at in [24usize, 32, 40, 44] {
+        put32(&mut out, at, (get32(valid, at) as usize - old_file_off + new_file_off) as u32);
+    }
+    out.extend_from_slice(mi);
+    out.extend(std::iter::repeat(0u8).take(pad));
+    out.extend_from_slice(&valid[old_file_off..]);
+    out
+}
+
+/// Position and length of the debug-id token of a MODULE line (`MODULE` blanks os blanks arch blanks id).
+fn id_token(line: &[u8]) -> Option<(usize, usize)> {
+    let mut p = line.strip_prefix(b"MODULE").map(|_| 6)?;
+    let skip = |p: &mut usize, f: &dyn Fn(u8) -> bool| {
+        let s = *p;
+        while *p < line.len() && f(line[*p]) {
+            *p += 1;
+        }
+        *p > s
+    };
+    for _ in 0..2 {
+        if !skip(&mut p, &|c| c == b' ') || !skip(&mut p, &|c| c != b' ') {
+            return None;
+        }
+    }
+    if !skip(&mut p, &|c| c == b' ') {
+        return None;
+    }
+    let start = p;
+    skip(&mut p, &|c| c.is_ascii_hexdigit()).then_some((start, p - start))
+}
+
+/// Doctored copies of the valid index (fix d2664d76): the module-info block gets a second MODULE line.
+///   two-module:        that line states ANOTHER debug id (one digit changed, or the other id form); since
+///                      `parse_symindex_file` reports the id of the LAST MODULE line the index must be ignored
+///   two-module-sameid: the second line spells the SAME `DebugId` differently (letter case flipped, a leading
+///                      zero in the appendix) => the index is used (model only)
+fn two_module_indexes(rng: &mut Rng, valid: &[u8]) -> Vec<(&'static str, Vec<u8>)> {
+    let mut v = Vec::new();
+    let (mi_off, mi_len) = (get32(valid, 12) as usize, get32(valid, 16) as usize);
+    let Some(mi) = valid.get(mi_off..mi_off + mi_len) else { return v };
+    let first: Vec<u8> = mi.split(|b| *b == b'\n').next().unwrap_or_default().to_vec();
+    let Some((at, n)) = id_token(&first) else { return v };
+    let place = |rng: &mut Rng, second: &[u8]| -> Vec<u8> {
+        // as the last line, or directly behind the first line (INFO lines follow)
+        let mut lines: Vec<Vec<u8>> = mi.split(|b| *b == b'\n').map(|l| l.to_vec()).collect();
+        let pos = if rng.chance(1, 2) { lines.len() } else { 1 };
+        lines.insert(pos, second.to_vec());
+        lines.join(&b'\n')
+    };
+    for _ in 0..2 {
+        let mut second = first.clone();
+        match rng.below(3) {
+            0 | 1 => {
+                let k = at + rng.below(n as u64) as usize;
+                second[k] = if second[k] == b'0' { b'1' } else { b'0' };
+            }
+            _ => {
+                // the other id form: 33 digits <-> 9 digits
+                let new_id: Vec<u8> = if n <= 16 { b"0123456789ABCDEF0123456789ABCDEF0".to_vec() } else { second[at..at + 9].to_vec() };
+                second.splice(at..at + n, new_id);
+            }
+        }
+        v.push(("two-module", with_module_info(valid, &place(rng, &second))));
+    }
+    let mut same = first.clone();
+    for c in &mut same[at..at + n] {
+        *c = if c.is_ascii_lowercase() { c.to_ascii_uppercase() } else { c.to_ascii_lowercase() };
+    }
+    if (33..40).contains(&n) && rng.chance(1, 2) {
+        same.insert(at + 32, b'0');
+    }
+    if same != first {
+        v.push(("two-module-sameid", with_module_info(valid, &place(rng, &same))));
+    }
+    v
+}
+
 /// `stored` / `wholesym` ops for the text `file` (an abstract file `f` when there is one: the foreign index
 /// then belongs to another random file with the same MODULE line, so that its debug id matches).
 fn stored_ops(rng: &mut Rng, file: &[u8], f: Option<&SymFile>) -> Vec<String> {
@@ -1096,9 +1181,12 @@ fn stored_ops(rng: &mut Rng, file: &[u8], f: Option<&SymFile>) -> Vec<String> {
             }
         }
     }
+    if let Some(valid) = valid.as_deref().filter(|b| b.len() >= 48) {
+        bad.extend(two_module_indexes(rng, valid));
+    }
     let mut ops: Vec<String> = bad.iter().map(|(k, b)| format!("stored {k} {}", hex(b))).collect();
     ops.push("wholesym fresh".to_string());
-    for kind in ["trunc", "foreign", "foreign-module", if rng.chance(1, 2) { "empty" } else { "counts" }] {
+    for kind in ["trunc", "foreign", "foreign-module", "two-module", if rng.chance(1, 2) { "empty" } else { "counts" }] {
         let c: Vec<&(&str, Vec<u8>)> = bad.iter().filter(|(k, _)| *k == kind).collect();
         if !c.is_empty() {
             let (k, b) = *rng.pick(&c);
